@@ -276,10 +276,11 @@ def install_label_monitor():
         script = PLAN.get("label_script")
         if script is not None:
             # forced history: the labelling of this round is scripted by the harness (the rest of the loop is the real code)
-            k_ = len(REC.label_steps)
+            k_ = sum(1 for p_ in REC.phases if p_["phase"] == "label")
             r = (list(script[min(k_, len(script) - 1)]), float(r[1]))
         count("label_calls")
-        REC.label_steps.append(dict(table=t_before, beta=b_before, beta_is_array=isinstance(beta, np.ndarray),
+        REC.label_steps.append(dict(round=sum(1 for p_ in REC.phases if p_["phase"] == "label"),
+                                    table=t_before, beta=b_before, beta_is_array=isinstance(beta, np.ndarray),
                                     labels=list(r[0]), cost=r[1],
                                     table_unchanged=_arr_equal(t_before, table),
                                     beta_unchanged=(not isinstance(beta, np.ndarray)) or _arr_equal(b_before, beta)))
